@@ -54,6 +54,19 @@ CLAIMED = {
    note=TRUST + "Unpack.v reference semantics of indexing/slicing/unpacking is hand-written from the language reference and validated against CPython by differential execution.",
    technique="Coq proof (induction over the target list, lia arithmetic on negative indices/slices) over the converter model + generated operator table + AST correspondence + differential execution",
    ref="5/C13"),
+ "C15": dict(
+   text="Theorems over the unparser model and the precedence table regenerated from the code (Compat.v): "
+        "C15_walrus_bare_only_as_call_argument / C15_walrus_parenthesised_under_operators / C15_walrus_wrapped - for EVERY slot of the "
+        "table and every operator, an assignment expression is printed without parentheses only as a positional call argument (legal "
+        "since 3.8) and wrapped everywhere else (subscript index, set element, keyword value ... became legal later); "
+        "C15_quote_alternates / C15_two_levels_differ - string literals use the quote their context does not, so two levels of f-string "
+        "nesting never re-use a quote; C15_third_level_reuses_refuted - the third level does (known finding). That no OTHER construct of the "
+        "output is version-sensitive cannot be a theorem without the six grammars: it is decided by compiling and running every distinct "
+        "output of every (program, 8 configurations, host 3.10-3.13) on the runtimes 3.8-3.13 and comparing with the script on the same "
+        "runtime (support). Three known findings (f-string nesting depth 3, escapes inside replacement fields, ast.unparse on 3.12+ hosts).",
+   note=TRUST + "The grammars and compilers of CPython 3.8-3.13 are CPython's; the ast.unparse path is the host interpreter's code and is only observed. Programs are restricted to those that compile on 3.8.",
+   technique="Coq proof (finite check by vm_compute over the regenerated slot/precedence table lifted to all slots, structural lemma on the unparser model) + cross-interpreter differential execution (4 converter hosts x 6 runtimes)",
+   ref="5/C15"),
  "C16": dict(
    text="Theorems over the argument machine Cli.v (option table regenerated from config.py): C16_bad_option_no_output - for every "
         "argument list, if any -C is malformed, unknown or illegal the run is an error and the effect trace is empty (the output file "
